@@ -99,6 +99,7 @@ func runC09(w *core.World, r *core.Report) {
 	r.Rule("R4", "CacheUseSize stores are 0 or self +/- len(frame value); frame list grows only by append(fresh map), shrinks only by shorter prefix")
 	r.Rule("R5", "every write before an error return of Add/Update is restored on the way to it")
 	r.Rule("R6", "Pop deletes Sizes[k] for every key of the removed frame")
+	r.Rule("R11", "the frame lookup answers from the frames alone (reads no accounting field)")
 	r.Rule("R10", "the engine sets a cache capacity only from a positive Config.CacheSize")
 	r.Rule("R9", "the persister empties the session's cache object but never replaces it (the object carries the configured capacity)")
 	r.Rule("R8", "a size limit is deleted only together with its symbol: the key of every delete(Sizes, k) ranges over a frame that is being dropped")
@@ -132,6 +133,7 @@ func runC09(w *core.World, r *core.Report) {
 	}
 
 	checkCacheAccounting(w, r, oracles, add, upd, pop, "R4", "R5", "R6")
+	checkFrameLookupReadsFramesOnly(w, r, "R11", add)
 
 	// R8
 	checkSizesDeletedWithFrame(w, r, "R8")
